@@ -670,4 +670,10 @@ def witnesses():
     h = History(); a = h.add(W_A()); b = h.add(W_B2()); h.parse(a); h.parse(b, ["g1"]); h.impl("bbb", None, []); w["F23"] = ("F23", h, 2)
     h = History(EXPLICIT); a = h.add(W_A()); h.parse(a); h.compile(); h.impl("aaa", None, ["f1"]); w["F53"] = ("F53", h, 2)
     h = History(); b = h.add(W_B2()); h.add(W_B2new()); h.parse(b); w["F55"] = ("F55", h, 0)
+    ma = Mod("maa", "2019-01-01", feats=[Feat("f1")])
+    mb = Mod("mbb", "2019-01-01", imports=[("maa", "2019-01-01")], augments=["maa"])
+    mc = Mod("mcc", "2020-02-02", imports=[("maa", "2019-01-01"), ("mbb", "2019-01-01")], lrefs=["mbb"])
+    md = Mod("mdd", None, imports=[("maa", None), ("mcc", None)], lrefs=["mcc"])
+    mz = apply_edit(Mod("mzz", None, imports=[("maa", None)]), "typedef")
+    h = History(); [h.add(x) for x in (ma, mb, mc, md)]; h.parse(md); h.add(mz); h.parse(mz); w["F57"] = ("F57", h, 1)
     return w
